@@ -175,6 +175,7 @@ Outcome roundtrip(Json const& plan)
     if (v == "rgb16") return RoundTrip<Tag, gil::rgb16_image_t, true>::run(plan, "tif", info);
     if (v == "rgba8") return RoundTrip<Tag, gil::rgba8_image_t, true>::run(plan, "tif", info);
     if (v == "cmyk8") return RoundTrip<Tag, gil::cmyk8_image_t, true>::run(plan, "tif", info);
+    if (v == "bgr8") return RoundTrip<Tag, gil::bgr8_image_t, true>::run(plan, "tif", info);
     Outcome o; o.cls = "skipped:type"; return o;
 }
 
@@ -219,7 +220,7 @@ Format make_format()
     f.native_types = {"gray1", "gray2", "rgba16", "gray4", "gray8", "gray16", "gray32f", "rgb8", "rgb16", "rgba8", "cmyk8"};
     f.convert_types = {"gray8", "rgb8", "rgba8"};
     f.devices = {"TIFF", "istream", "name"};
-    f.write_types = {"gray1", "gray2", "gray4", "gray8", "gray16", "gray32f", "rgb8", "rgb16", "rgba8", "cmyk8"};
+    f.write_types = {"gray1", "gray2", "gray4", "gray8", "gray16", "gray32f", "rgb8", "rgb16", "rgba8", "cmyk8", "bgr8"};
     f.write_options = {"lzw", "deflate", "packbits", "tile", "tile32"};
     f.roundtrip = roundtrip; f.paths = paths;
     f.make = make; f.read = read; f.fields = fields; f.declared_pixels = declared;
